@@ -217,6 +217,7 @@ def directed(ctx, only=None):
     sides = [{"q": 3}, {"xs": [], "n": 0, "t": [], "d": {}, "o": {"n": 1, "items": [], "child": None}, "x": 0, "q": 0}]
     extra = [("all(y > 1 for y in xs if y != 5 if 10 // (y - 5) < 100)", {"xs": [7, 5, 0]}),
              ("add(*xs) > 1000", {}),
+             ("((m @ m)[0, 1] + x) > 1000", {}), ("x > 1000 or ((m @ (m))[1, 1] > 1000)", {}),
              # displays with unpacked items (finding D27)
              ("len([*xs, x]) > 1000", {}), ("sum((*xs, n)) > 1000", {}), ("len({*xs, x}) > 1000", {}),
              ("len({**d, 'k': x}) > 1000", {}), ("kw(**{'a': x, 'b': n}) > 1000", {}), ("(~x << 1) ** 2 > 1000 or +n / 2 > 1000", {})]
@@ -243,9 +244,10 @@ def directed(ctx, only=None):
             continue
         inputs = dict(base)
         inputs.update(over)
-        check_case(ctx, {"text": text, "params": GR.free_params(text), "features": ["directed"], "role": "require",
-                         "async": False, "inputs": inputs, "error": "default", "directed": i,
-                         "layout": {"kind": "one-line", "nest": "func", "above": [], "below": []}})
+        for kind in ("one-line", "break-before-matmul", "break-before-matmul-tight") if " @ " in text else ("one-line",):
+            check_case(ctx, {"text": text, "params": GR.free_params(text), "features": ["directed"], "role": "require",
+                             "async": False, "inputs": inputs, "error": "default", "directed": i,
+                             "layout": {"kind": kind, "nest": "func", "above": [], "below": []}})
 
 
 def replay(ctx, case):
